@@ -227,6 +227,7 @@ pub fn a64_check(rec: &mut Recorder, c: &A64Case) -> Result<(), String> {
     let disp = c.jit.wrapping_sub(c.func) as i64;
     let in_direct = disp >= -A64_REACH && disp < A64_REACH;
     let variant = if c.macos { "macos" } else { "linux" };
+    let prop = rec.property.clone();
     let r = a64_install(c);
     let ev = shim::events();
     rec.eval(|| json!({"case": c, "disp": disp, "outcome": match &r { Ok(_) => "installed".to_string(), Err(m) => format!("refused: {m}") }}));
@@ -241,7 +242,7 @@ pub fn a64_check(rec: &mut Recorder, c: &A64Case) -> Result<(), String> {
         Err(msg) => {
             // refused loudly: nothing may have been written at the entry
             if any_write_overlapping(&ev, c.func, c.func.wrapping_add(16)) {
-                return rec.fail(&format!("C15/{variant}/refused-but-entry-written"), format!("install panicked ({msg}) after writing at the entry; case {c:?}"));
+                return rec.fail(&format!("{prop}/{variant}/refused-but-entry-written"), format!("install panicked ({msg}) after writing at the entry; case {c:?}"));
             }
             rec.count("refused", 1);
             if in_direct && !c.macos || c.macos {
@@ -255,7 +256,7 @@ pub fn a64_check(rec: &mut Recorder, c: &A64Case) -> Result<(), String> {
         }
         Ok(g) => {
             rec.count("installed", 1);
-            let sig = |s: &str| format!("C15/{variant}/{s}");
+            let sig = |s: &str| format!("{prop}/{variant}/{s}");
             // --- the guard describes exactly what was overwritten
             let patches = patches_at(&ev, c.func);
             if patches.len() != 1 {
@@ -411,6 +412,7 @@ pub fn arm_check(rec: &mut Recorder, c: &ArmCase) -> Result<(), String> {
     let thumb = c.entry & 1 == 1;
     let start = c.entry & !1;
     let kind = if !thumb { "A32" } else if start % 4 == 0 { "T32/0mod4" } else { "T32/2mod4" };
+    let prop = rec.property.clone();
     let r = arm_install(c);
     let ev = shim::events();
     rec.eval(|| json!({"case": c, "kind": kind, "outcome": match &r { Ok(_) => "installed".to_string(), Err(m) => format!("refused: {m}") }}));
@@ -418,14 +420,14 @@ pub fn arm_check(rec: &mut Recorder, c: &ArmCase) -> Result<(), String> {
     let g = match r {
         Err(msg) => {
             if any_write_overlapping(&ev, start as u64, start as u64 + 16) {
-                return rec.fail(&format!("C16/{kind}/refused-but-entry-written"), format!("install panicked ({msg}) after writing; case {c:?}"));
+                return rec.fail(&format!("{prop}/{kind}/refused-but-entry-written"), format!("install panicked ({msg}) after writing; case {c:?}"));
             }
             rec.count("refused", 1);
             return Ok(());
         }
         Ok(g) => g,
     };
-    let sig = |s: &str| format!("C16/{}/{s}", if thumb { "T32" } else { "A32" });
+    let sig = |s: &str| format!("{prop}/{}/{s}", if thumb { "T32" } else { "A32" });
     let writes: Vec<(u64, &Vec<u8>)> = ev
         .iter()
         .filter_map(|e| match e {
@@ -482,7 +484,8 @@ pub fn arm_check(rec: &mut Recorder, c: &ArmCase) -> Result<(), String> {
     // addresses: the decoder never left [start, start+12) without a branch)
     // --- register discipline (AAPCS32: r4-r11 callee-saved, r9 = v6 on Linux; sp, lr live;
     //     r0-r3 carry arguments; only ip = r12 is free at a call boundary)
-    for r in &out.written {
+    // (judged under C16 only: the scratch-register question has one root cause)
+    for r in out.written.iter().filter(|_| prop == "C16") {
         if *r != 12 {
             let what = match *r {
                 0..=3 => "argument register",
